@@ -89,6 +89,10 @@ EXPLANATION += (
     ' Round 12: ancestor lists are added nearest first (R-PROV/ancestors-nearest-first).'
 )
 
+EXPLANATION += (
+    ' Round 13: positions-as-stored (with C01); the child-to-parent table is keyed per level (node identity, rule of C10).'
+)
+
 RULE_TEXT = (
     "one obligation per cache-path argument, per indexed comprehension, "
     "per cache dataset, per log conditional, per error condition, per "
